@@ -456,10 +456,14 @@ def make_plans(ctx, rd, ncalc):
     """[(ci, dataset, [(label, qha settings)])]: grids whose top is placed relative to the reachable range"""
     plans = []
     for ci in range(ncalc):
+        # every second data set has negative mode Grueneisen parameters: thermal pressure falls with T, so the
+        # isotherm that bounds the reachable range at the compressed end is the hottest one, not T[0]
+        soft = ci % 2 == 1
         ds = synth.make_dataset(ctx.rng, nv=ctx.rng.choice([5, 6, 7]), nq=ctx.rng.choice([1, 2, 3]),
-                                spectrum=ctx.rng.choice(["powerlaw", "curved"]))
+                                spectrum=ctx.rng.choice(["powerlaw", "curved"]),
+                                grun=(-2.2, -0.4) if soft else (0.4, 2.2))
         ntv = ctx.rng.choice([8, 10, 12, 15])
-        nt = ctx.rng.randint(1, 4)
+        nt = ctx.rng.randint(3, 4) if soft else ctx.rng.randint(1, 4)
         base = dict(NT=nt, NTV=ntv, DT=ctx.rng.choice([100, 250]), volume_ratio=ctx.rng.choice([1.15, 1.2, 1.3]))
         base["DT_SAMPLE"] = base["DT"]
         d = rd / ("calc_%02d" % ci)
@@ -468,6 +472,8 @@ def make_plans(ctx, rd, ncalc):
         q0 = hand_qha(sp)
         lo_top, hi_top = float(q0.p_tv_gpa[:, -1].min()), float(q0.p_tv_gpa[:, -1].max())
         bot = float(q0.p_tv_gpa[:, 0].max())
+        ctx.count("data sets whose min_T P[T][last] is attained at row %s" %
+                  ("0 (coldest)" if int(np.argmin(q0.p_tv_gpa[:, -1])) == 0 else ">0 (thermal pressure falls with T)"))
         targets = [("deep-inside", 0.35 * lo_top), ("just-below-min", lo_top * (1 - 1e-4)),
                    ("between-min-and-max", 0.5 * (lo_top + hi_top)), ("just-above-max", hi_top * (1 + 1e-4)),
                    ("far-above", 1.7 * hi_top)]
